@@ -277,6 +277,7 @@ def run_shard(sh):
     finally:
         shutil.rmtree(base, ignore_errors=True)
     res['violations'] = list(V.values())
+    res['evaluations'] = max(res['evaluations'], len(res['distinct']))
     return res
 
 
